@@ -129,8 +129,8 @@
 (* (MC_MultiValued_neg_plainkeys.cfg).                                     *)
 (* All were tried; props/c12.py re-runs                                    *)
 (* IterateAllFields and one of CacheWidths, SharedEqualRecords,            *)
-(* ClassLevelOption, StoreBeforeValidate, ReorderStoresPlainKeys in every  *)
-(* quick check, all of them                                                *)
+(* ClassLevelOption, StoreBeforeValidate, ReorderStoresPlainKeys,          *)
+(* RefusedUnlinksFirst in every quick check, all of them                   *)
 (* and the other two configurations in the thorough tier,                  *)
 (* and fails (exit 2) if TLC stops reporting the violation.                *)
 (*                                                                         *)
@@ -177,6 +177,9 @@
 (*            default) interleaved with steps of OTHER live objects        *)
 (*            (Release with either behaviour, PdiffIndex, Changes, Dsc),   *)
 (*            also before the object is created                            *)
+(*   refuse   refused calls (Refused) before the first dump and between    *)
+(*            dumps, mixed with in-place edits and deletions, on built and *)
+(*            on parsed paragraphs with absent optional fields             *)
 (* Parse prints one CASE line per explored paragraph (expected layout,     *)
 (* widths, names) for props/c12.py to replay into the real classes.        *)
 (***************************************************************************)
@@ -382,7 +385,7 @@ Build(f, sh) == /\ phase = "build" /\ NoDumpYet
 \* F: <<index, name, form, width (0: none), width promised?, names of the parsed record, lines of <<pad, id, len>>>>
 \* and, in a mode with mutations, the history H: <<"dump", F>>, <<"append", f, record>>,
 \* <<"setsize", f, r, token>>, <<"assign", f, records>>, <<"delete", f>> (tokens as <<id, len>>),
-\* <<"setbeh", v>>, <<"other", class, v>>; o / b0 / bs0: origin and option of the object at the start
+\* <<"setbeh", v>>, <<"other", class, v>>, <<"reorder", kind, f, g>>, <<"refused", kind, f, g>>; o / b0 / bs0: origin and option of the object at the start
 CaseF(pp) ==
     LET present == SetToSortSeq(DOMAIN para, <) IN
     [k \in 1..Len(present) |->
@@ -575,12 +578,15 @@ Refused(kind, f, g) ==
                   THEN [linked EXCEPT ![f] = FALSE] ELSE linked)
     /\ UNCHANGED <<para, cache, opt, fold>>
     /\ AfterMut(<<"refused", kind, f, g>>)
-\* bounded enumeration: one absent structured field (the first one) and NoField stand for the absent fields
-RefusedArgs == LET gone == (1..NFields) \ DOMAIN para
-               IN  DOMAIN para \cup {0, NoField} \cup (IF gone = {} THEN {} ELSE {Min(gone)})
-SomeRefused == \E kind \in RefusedKinds : \E f \in RefusedArgs : \E g \in RefusedArgs :
-                  /\ ~(MAbsent(f, NFields, DOMAIN para) /\ MAbsent(g, NFields, DOMAIN para))   \* (both absent: recorded traces only)
-                  /\ Refused(kind, f, g)
+\* bounded enumeration: representatives (the recorded traces draw from the whole of MRefusedOK); a = the first
+\* absent structured field stands for the absent ones
+RefusedCases == LET P == DOMAIN para
+                    gone == (1..NFields) \ P
+                    a == IF gone = {} THEN NoField ELSE Min(gone)
+                IN  {<<k, f, a>> : k \in ReorderRel, f \in P \cup {0}} \cup {<<k, f, NoField>> : k \in ReorderRel, f \in P}
+                    \cup {<<k, a, g>> : k \in ReorderRel, g \in P} \cup {<<k, f, f>> : k \in ReorderRel, f \in P}
+                    \cup {<<k, a, 0>> : k \in RefusedGone} \cup {<<k, 0, 0>> : k \in RefusedFault}
+SomeRefused == \E c \in RefusedCases : Refused(c[1], c[2], c[3])
 \* bounded enumeration: the kinds of mutation of the mode; fresh tokens (ids beyond those of
 \* MMkRecs), sizes from the mode
 Fresh == 1000 * (nmut + 1)
@@ -747,7 +753,7 @@ XMode(name, configs, shapes, uniform, maxf, heavy, emitmod, maxmut, mutsizes, fl
     [name |-> name, configs |-> configs, shapes |-> shapes, uniform |-> uniform, maxf |-> maxf,
      heavy |-> heavy, emitmod |-> emitmod, maxmut |-> maxmut, mutsizes |-> mutsizes, flimit |-> flimit,
      kinds |-> kinds, origins |-> origins, others |-> others]
-ListKinds == {"append", "setsize", "assign", "delete", "reorder", "refused"}
+ListKinds == {"append", "setsize", "assign", "delete", "reorder"}
 HMode(name, configs, shapes, uniform, maxf, heavy, emitmod, maxmut, mutsizes, flimit) ==
     XMode(name, configs, shapes, uniform, maxf, heavy, emitmod, maxmut, mutsizes, flimit, ListKinds, {"built"}, {})
 Mode(name, configs, shapes, uniform, maxf, heavy, emitmod) ==
@@ -777,8 +783,10 @@ LiveConfigs  == {<<"Release", Apt>>, <<"Release", Dak>>, <<"Release", "default">
 \* the other live objects: <<class, value assigned to its size_field_behavior ("-": none)>>
 LiveOthers   == {<<"Release", Apt>>, <<"Release", Dak>>, <<"PdiffIndex", "-">>, <<"Changes", "-">>}
 LiveOthersT  == LiveOthers \cup {<<"Release", "-">>, <<"Dsc", "-">>}
-LiveKinds    == {"setbeh", "other", "setbehfails", "reorder", "refused"}
-LiveKindsT   == {"setbeh", "other", "setbehfails", "setsize", "reorder", "refused"}
+LiveKinds    == {"setbeh", "other", "setbehfails", "reorder"}
+RefuseKinds  == {"refused", "setsize", "delete"}
+RefuseConfigs == {<<"Release", Apt>>, <<"Release", Dak>>, <<"PdiffIndex", "-">>, <<"Dsc", "-">>}
+LiveKindsT   == {"setbeh", "other", "setbehfails", "setsize", "reorder"}
 
 \* quick tier (two TLC runs in parallel)
 ModesQuick ==
@@ -787,8 +795,9 @@ ModesQuick ==
     Mode("pairs",    PairConfigs,  ShapesPairsQuick,   FALSE, 2,  TRUE,  1),
     HMode("hist",    HistConfigs,  ShapesHist,         FALSE, 1,  TRUE,  8, 2, {1, 7}, 4),
     HMode("histP",   PdiffConfig,  ShapesHist,         FALSE, 1,  TRUE,  7, 2, {1, 7}, 2),
-    XMode("alias",   AliasConfigs, ShapesAlias,        FALSE, 1,  TRUE,  6, 2, {1, 7}, 2, {"setsize", "append", "reorder", "refused"}, {"parsed"}, {}),
-    XMode("live",    LiveConfigs,  ShapesLive,         FALSE, 1,  TRUE,  7, 2, {7}, 1, LiveKinds, {"built"}, LiveOthers) }
+    XMode("alias",   AliasConfigs, ShapesAlias,        FALSE, 1,  TRUE,  6, 2, {1, 7}, 2, {"setsize", "append", "reorder"}, {"parsed"}, {}),
+    XMode("live",    LiveConfigs,  ShapesLive,         FALSE, 1,  TRUE,  7, 2, {7}, 1, LiveKinds, {"built"}, LiveOthers),
+    XMode("refuse",  RefuseConfigs, ShapesLive,        FALSE, 1,  TRUE,  5, 2, {7}, 2, RefuseKinds, {"built", "parsed"}, {}) }
 ModesQuickP ==
   { Mode("subsetsP", PdiffConfig,  ShapesSubsetsP1,    TRUE,  14, FALSE, 24) }
 \* thorough tier
@@ -799,8 +808,9 @@ ModesThorough ==
     Mode("full4",    HistConfigs,  ShapesPairsQuick,   FALSE, 4,  TRUE,  4),
     HMode("hist",    AllConfigs,   ShapesHist,         FALSE, 1,  TRUE,  6, 2, {1, 7, 17}, 4),
     HMode("hist2",   AllConfigs,   ShapesHist,         FALSE, 2,  TRUE,  4, 1, {1, 7}, 4),
-    XMode("alias",   AllConfigs,   ShapesAlias,        FALSE, 1,  TRUE,  7, 2, {1, 7}, 4, {"setsize", "append", "delete", "reorder", "refused"}, {"parsed", "built"}, {}),
-    XMode("live",    LiveConfigs \cup {<<"Changes", "-">>}, ShapesLive, FALSE, 1, TRUE, 8, 2, {7}, 1, LiveKindsT, {"built", "parsed"}, LiveOthersT) }
+    XMode("alias",   AllConfigs,   ShapesAlias,        FALSE, 1,  TRUE,  7, 2, {1, 7}, 4, {"setsize", "append", "delete", "reorder"}, {"parsed", "built"}, {}),
+    XMode("live",    LiveConfigs \cup {<<"Changes", "-">>}, ShapesLive, FALSE, 1, TRUE, 8, 2, {7}, 1, LiveKindsT, {"built", "parsed"}, LiveOthersT),
+    XMode("refuse",  AllConfigs,   ShapesLive,         FALSE, 2,  TRUE,  11, 2, {7}, 2, RefuseKinds, {"built", "parsed"}, {}) }
 ModesThoroughP ==
   { Mode("subsetsP", PdiffConfig,  ShapesSubsetsP,     TRUE,  14, TRUE,  2) }
 \* negative controls (small)
